@@ -250,6 +250,20 @@ func (r *rewriter) ctxOfDone(e ast.Expr) ast.Expr {
 	return sel.X
 }
 
+func (r *rewriter) isContext(e ast.Expr) bool {
+	t := r.info.TypeOf(e)
+	if t == nil {
+		return false
+	}
+	for _, m := range []string{"Err", "Deadline", "Value", "Done"} {
+		o, _, _ := types.LookupFieldOrMethod(t, true, r.pkg.Types, m)
+		if _, ok := o.(*types.Func); !ok {
+			return false
+		}
+	}
+	return true
+}
+
 func (r *rewriter) isChan(e ast.Expr) bool {
 	t := r.info.TypeOf(e)
 	if t == nil {
@@ -333,6 +347,11 @@ func (r *rewriter) run() bool {
 				}
 			}
 		case *ast.CallExpr:
+			if sel, ok := n.Fun.(*ast.SelectorExpr); ok && sel.Sel.Name == "Err" && len(n.Args) == 0 && r.isContext(sel.X) {
+				c.Replace(call(rt("CtxErr"), sel.X))
+				r.mark("ctx-err")
+				return true
+			}
 			if id, ok := n.Fun.(*ast.Ident); ok && id.Name == "close" && len(n.Args) == 1 {
 				if _, ok := r.info.Uses[id].(*types.Builtin); ok {
 					n.Fun = rt("Close")
